@@ -7,7 +7,7 @@ N_QUICK, N_THOROUGH = 800, 25000
 RULE = ("histograms of every class (Histogram1D incl. gapped bins, Histogram2D, HistogramND with 3 axes, Radial, Azimuthal, Polar, "
         "SphericalSurface, Spherical, CylindricalSurface, Cylindrical) with 1..5 irregular bins per axis at scales 1e-4..1e4, angular "
         "axes over partial or full ranges (full ranges with radial axes from 0 carry the closed form pi R^2, 4 pi, 4/3 pi R^3, pi R^2 H, "
-        "2 pi H), integer or float contents incl. zeros. Read: densities, bin_sizes, total_size / total_width, total, per-axis "
+        "2 pi H), int16 / int32 / int64 / float32 / float64 contents incl. zeros and values whose running sums leave the narrow types. Read: densities, bin_sizes, total_size / total_width, total, per-axis "
         "left / right / centre / width arrays and their mesh forms, cumulative_frequencies (1-D), and bin_sizes after merging "
         "pairs of adjacent bins along each axis. non-trivial = >=2 axes or >=3 bins")
 MODELLED = ("the measure formulas of every class (width, product of widths, (r2^2-r1^2)/2 dphi, pi (r2^2-r1^2), (r2^3-r1^3)/3 (cos th1 - cos "
@@ -56,11 +56,16 @@ def gen(rng, n, tier):
         size = 1
         for a in axes: size *= len(a)
         ints = rng.random() < 0.5
-        freq = [rng.choice([0, 0, 1, 3, 10, 10 ** 6]) if ints else fl(rng.choice([0.0, rng.random() * 100, rng.random() * 1e-3, rng.random() * 1e8])) for _ in range(size)]
+        dtype = rng.choice(["int64", "int64", "int32", "int16"]) if ints else rng.choice(["float64", "float64", "float32"])
+        big = {"int64": 10 ** 6, "int32": 2 ** 30, "int16": 30000}.get(dtype, 0)
+        freq = [rng.choice([0, 0, 1, 3, 10, big]) if ints else fl(rng.choice([0.0, rng.random() * 100, rng.random() * 1e-3, rng.random() * 1e8])) for _ in range(size)]
+        if dtype == "float32":
+            import struct
+            freq = [Fr(struct.unpack("f", struct.pack("f", float(x)))[0]) for x in freq]
         sub = []
         for a in axes:
             lo = rng.randint(0, len(a) - 1); sub.append([lo, rng.randint(lo + 1, len(a))])
-        yield [["bucket", cls + ("/full" if closed != "none" else "")], ["cls", cls], ["axes", axes], ["freq", freq], ["ints", "T" if ints else "F"], ["closed_form", closed], ["sub", sub]]
+        yield [["bucket", cls + ("/full" if closed != "none" else "")], ["cls", cls], ["axes", axes], ["freq", freq], ["ints", "T" if ints else "F"], ["closed_form", closed], ["sub", sub], ["dtype", dtype], ["sumtol", Fr(1, 10 ** 6) if dtype == "float32" else Fr(1, 10 ** 12)]]
 
 def impl(case):
     import numpy as np, warnings
@@ -74,7 +79,7 @@ def impl(case):
         warnings.simplefilter("ignore")
         bs = [StaticBinning(np.array([[float(a), float(b)] for a, b in ax])) for ax in d["axes"]]
         shape = tuple(len(ax) for ax in d["axes"])
-        fr = np.array([int(x) if d["ints"] == "T" else float(x) for x in d["freq"]]).reshape(shape)
+        fr = np.array([int(x) if d["ints"] == "T" else float(x) for x in d["freq"]], dtype=np.dtype(d.get("dtype", "int64" if d["ints"] == "T" else "float64"))).reshape(shape)
         h = K(bs[0], fr) if len(bs) == 1 and issubclass(K, Histogram1D) else K(bs, fr)
         nd = h.ndim
         def f(a): return [float(x) for x in np.asarray(a, dtype=float).ravel()]
@@ -94,7 +99,7 @@ def impl(case):
         for k in range(nd):
             if shape[k] >= 2:
                 try: m = h.merge_bins(2, axis=k)
-                except ValueError: continue
+                except (ValueError, OverflowError): continue      # gapped bins / merged contents beyond a narrow integer dtype
                 merged.append([k, f(m.bin_sizes)])
         out.append(["merged", merged])
         def edges_of(g, i):
@@ -102,7 +107,9 @@ def impl(case):
             except ValueError: return "error"
         out.append(["edges", [edges_of(h, i) for i in range(nd)]])
         sl = tuple(slice(a, b) for a, b in d["sub"])
-        g = h[sl[0]] if one else h[sl]
+        try: g = h[sl[0]] if one else h[sl]
+        except OverflowError:
+            return out + [["sub_left", "n/a"]]
         if one:
             out += [["sub_left", [f(g.bin_left_edges)]], ["sub_right", [f(g.bin_right_edges)]]]
         else:
